@@ -100,6 +100,11 @@ class Printer:
             b = self.operand(t[3])
             # (a blank after a control word is eaten by the tokenizer and would terminate nothing: \relax then)
             end = ' ' if len(t) > 4 and t[4] == 'space' and not b[-1:].isalpha() else '\\relax '
+            if len(t) > 5 and t[5] == 'neg':
+                # printing choice (same meaning): both operands written with a minus sign in front and the relation
+                # turned round, -a > -b for a < b -- a sign directly in front of a counter / register operand too
+                flip = {'<': '>', '>': '<', '=': '='}[t[2]]
+                return '\\ifnum-%s%s-%s%s' % (self.operand(t[1]), flip, b, end)
             return '\\ifnum%s%s%s%s' % (self._numlead(t[1]), t[2], b, end)
         if k == 'odd':
             a = self._numlead(t[1])
